@@ -190,7 +190,7 @@ pub fn check(rep: &Report) {
     rep.assume("Ok(0) and EINTR results of the stream may be answered either by retrying or by reporting an error; only prefix/completeness is asserted for them");
     let tier = rep.tier;
     rep.enumerate("boundary-sweep", false, move |p, n| sweep(tier, p, n), run);
-    rep.random("schedules", rep.tier.n(40_000, 3_000_000), 48, decode, run);
+    rep.random("schedules", rep.tier.n(400_000, 6_000_000), 48, decode, run);
     rep.require("schedules", "short-writes", 1000);
     rep.require("schedules", "injected-error", 1000);
 }
